@@ -286,7 +286,54 @@ func checkC16(c *Ctx) {
 				}
 				return enq.Fn != fn && isCallToFn(x, enq.Fn)
 			}
-			skip := findPath(posOf(upd), pathQuery{target: isReturn, avoid: isEnq})
+			start := posOf(upd)
+			// the update made by a helper that reports whether it changed the set (`if !c.markSubscribed(n) { return }`):
+			// the paths that matter start on the side of the test on which the helper did update
+			if ucall, isCall := upd.(*ssa.Call); isCall {
+				if g := calleeFn(ucall.Common()); g != nil && g.Blocks != nil && g.Signature.Results().Len() == 1 {
+					if at := updatesSet(g); at != nil {
+						val, consistent, nret := "", true, 0
+						eachInstr(g, func(_ *ssa.BasicBlock, _ int, x ssa.Instruction) {
+							r, isRet := x.(*ssa.Return)
+							if !isRet {
+								return
+							}
+							if findPath(posOf(at), pathQuery{target: func(y ssa.Instruction) bool { return y == x }}) == nil {
+								return
+							}
+							nret++
+							cv, isC := returnedValues(r)[0].(*ssa.Const)
+							if !isC || cv.Value == nil {
+								consistent = false
+								return
+							}
+							if val != "" && val != cv.Value.String() {
+								consistent = false
+							}
+							val = cv.Value.String()
+						})
+						if consistent && nret > 0 && (val == "true" || val == "false") {
+							for _, r := range *ucall.Referrers() {
+								cond := ssa.Value(ucall)
+								neg := false
+								if u, isU := r.(*ssa.UnOp); isU && u.Op == token.NOT {
+									cond, neg = u, true
+								}
+								for _, r2 := range *cond.Referrers() {
+									if iff, isIf := r2.(*ssa.If); isIf {
+										k := 0
+										if (val == "true") == neg {
+											k = 1
+										}
+										start = ipos{iff.Block().Succs[k], -1}
+									}
+								}
+							}
+						}
+					}
+				}
+			}
+			skip := findPath(start, pathQuery{target: isReturn, avoid: isEnq})
 			c.Check(skip == nil, "R2", site+" enqueues every change of the set", upd.Pos(), "every path from the set update reaches the enqueue", "a path updates the subscribed set and returns without queueing the change ("+p.pathString(skip)+"): a change that lands after the resubscribe snapshot of a stream that is being established is in neither the snapshot nor the queue - the service stays (un)subscribed on the stream until the stream next fails")
 		}
 		c.Check(enq.Blocking, "R2", site+" enqueue never drops", enq.In.Pos(), "blocking send", "the enqueue is non-blocking: when the queue is full the change is dropped although the set was updated; it is never re-queued (Subscribe deduplicates on the set) and a healthy stream never resubscribes")
